@@ -38,42 +38,1247 @@ def willDrain (s : Sh) (t : Th) (id : Nat) : Bool :=
   | .lDrainDist i _ | .lDrainSwap i _ => decide (i ≤ u)
   | _ => false
 
+/-!
+# Proofs
+
+Structure: `PStep` is the step relation of `stepPC` without events; `Str` is the structural invariant
+(constants, lengths, roles of the threads); `step_rule` is the proof rule for invariants on top of `Str`.
+Invariants: `WInv` (wake-up), `JInv` (signal, only on paths without a lossy `empty_buffer`, see
+`ReachableNL`), `CInv` (completed + in-flight ≤ activations), `KSh` (counting conservation), `BSh` (bit set).
+
+FINDING: `event_no_lost_wakeup` and `event_notified_implies_signal` are FALSE as stated — see
+`event_lost_wakeup_reachable` (a reachable deadlock with an active id) and the `_refuted` / `_partial` theorems.
+-/
+
+section Proofs
+variable {counting : Bool} {nids bound : Nat} {fail : Bool} {l : Nat} {progs : List (List Cmd)}
+
+theorem stepAt_some {c c' : Cfg Sh Th} {i : Nat} {evs : List Ev} (h : sys.stepAt c i = some (c', evs)) :
+    ∃ t sh' t', c.th[i]? = some t ∧ step c.sh t = some (sh', t', evs) ∧ c' = { sh := sh', th := c.th.set i t' } := by
+  unfold Sys.stepAt at h
+  split at h
+  · simp at h
+  · rename_i t ht
+    split at h
+    · simp at h
+    · rename_i sh' t' evs' hs
+      simp only [Option.some.injEq, Prod.mk.injEq] at h
+      obtain ⟨h1, h2⟩ := h
+      subst h2
+      exact ⟨t, sh', t', ht, hs, h1.symm⟩
+
+theorem step_cases {s : Sh} {t : Th} {r : Sh × Th × List Ev} (h : step s t = some r) :
+    (t.pc ≠ .idle ∧ stepPC s t = some r) ∨
+    (t.pc = .idle ∧ ∃ c rest, t.todo = c :: rest ∧ stepPC s { pc := start c, todo := rest } = some r) := by
+  unfold step at h
+  split at h
+  · rename_i hpc
+    split at h
+    · simp at h
+    · rename_i c rest htodo
+      exact Or.inr ⟨hpc, c, rest, htodo, h⟩
+  · rename_i hpc
+    exact Or.inl ⟨by intro h'; exact hpc h', h⟩
+
+theorem getD_bump (l : List Nat) (i k j : Nat) :
+    (bump l i k)[j]?.getD 0 = if j = i ∧ j < l.length then l[j]?.getD 0 + k else l[j]?.getD 0 := by
+  simp only [bump, List.getElem?_modify]
+  by_cases hj : j < l.length
+  · simp [hj]
+    by_cases hij : i = j
+    · simp [hij]
+    · simp [hij, Ne.symm hij]
+  · simp [hj]
+
+theorem getD_set (l : List Nat) (i v j : Nat) :
+    (l.set i v)[j]?.getD 0 = if j = i ∧ j < l.length then v else l[j]?.getD 0 := by
+  simp only [List.getElem?_set]
+  by_cases hij : i = j
+  · subst hij
+    by_cases hj : i < l.length
+    · simp [hj]
+    · simp [hj]
+  · simp [hij, Ne.symm hij]
+
+theorem bump_length (l : List Nat) (i k : Nat) : (bump l i k).length = l.length := by simp [bump]
+
+theorem reportAll_cons (s : Sh) (p : Nat × Nat) (ids : List (Nat × Nat)) :
+    reportAll s (p :: ids) = reportAll { s with reported := bump s.reported p.1 p.2, reports := bump s.reports p.1 1, lastReport := s.lastReport.set p.1 (s.now + 1) } ids := by
+  simp [reportAll]
+
+
+theorem reportAll_frame (ids : List (Nat × Nat)) : ∀ s : Sh,
+    (reportAll s ids).counting = s.counting ∧ (reportAll s ids).nids = s.nids ∧ (reportAll s ids).ns = s.ns ∧
+    (reportAll s ids).words = s.words ∧ (reportAll s ids).counts = s.counts ∧ (reportAll s ids).trigger = s.trigger ∧
+    (reportAll s ids).bound = s.bound ∧ (reportAll s ids).failWhenFull = s.failWhenFull ∧ (reportAll s ids).now = s.now ∧
+    (reportAll s ids).activations = s.activations ∧ (reportAll s ids).lastActivate = s.lastActivate ∧
+    (reportAll s ids).completed = s.completed ∧ (reportAll s ids).reported.length = s.reported.length ∧
+    (reportAll s ids).reports.length = s.reports.length ∧ (reportAll s ids).lastReport.length = s.lastReport.length := by
+  induction ids with
+  | nil => intro s; simp [reportAll]
+  | cons p ids ih =>
+    intro s
+    rw [reportAll_cons]
+    have := ih { s with reported := bump s.reported p.1 p.2, reports := bump s.reports p.1 1, lastReport := s.lastReport.set p.1 (s.now + 1) }
+    simpa [bump_length] using this
+
+@[simp] theorem reportAll_counting (s ids) : (reportAll s ids).counting = s.counting := (reportAll_frame ids s).1
+@[simp] theorem reportAll_nids (s ids) : (reportAll s ids).nids = s.nids := (reportAll_frame ids s).2.1
+@[simp] theorem reportAll_ns (s ids) : (reportAll s ids).ns = s.ns := (reportAll_frame ids s).2.2.1
+@[simp] theorem reportAll_words (s ids) : (reportAll s ids).words = s.words := (reportAll_frame ids s).2.2.2.1
+@[simp] theorem reportAll_counts (s ids) : (reportAll s ids).counts = s.counts := (reportAll_frame ids s).2.2.2.2.1
+@[simp] theorem reportAll_trigger (s ids) : (reportAll s ids).trigger = s.trigger := (reportAll_frame ids s).2.2.2.2.2.1
+@[simp] theorem reportAll_bound (s ids) : (reportAll s ids).bound = s.bound := (reportAll_frame ids s).2.2.2.2.2.2.1
+@[simp] theorem reportAll_fail (s ids) : (reportAll s ids).failWhenFull = s.failWhenFull := (reportAll_frame ids s).2.2.2.2.2.2.2.1
+@[simp] theorem reportAll_now (s ids) : (reportAll s ids).now = s.now := (reportAll_frame ids s).2.2.2.2.2.2.2.2.1
+@[simp] theorem reportAll_activations (s ids) : (reportAll s ids).activations = s.activations := (reportAll_frame ids s).2.2.2.2.2.2.2.2.2.1
+@[simp] theorem reportAll_lastActivate (s ids) : (reportAll s ids).lastActivate = s.lastActivate := (reportAll_frame ids s).2.2.2.2.2.2.2.2.2.2.1
+@[simp] theorem reportAll_completed (s ids) : (reportAll s ids).completed = s.completed := (reportAll_frame ids s).2.2.2.2.2.2.2.2.2.2.2.1
+@[simp] theorem reportAll_reported_length (s ids) : (reportAll s ids).reported.length = s.reported.length := (reportAll_frame ids s).2.2.2.2.2.2.2.2.2.2.2.2.1
+@[simp] theorem reportAll_reports_length (s ids) : (reportAll s ids).reports.length = s.reports.length := (reportAll_frame ids s).2.2.2.2.2.2.2.2.2.2.2.2.2.1
+@[simp] theorem reportAll_lastReport_length (s ids) : (reportAll s ids).lastReport.length = s.lastReport.length := (reportAll_frame ids s).2.2.2.2.2.2.2.2.2.2.2.2.2.2
+
+
+/-- shared state after the drain swap of unit `i` -/
+def drainSh (s : Sh) (i : Nat) : Sh :=
+  tick (reportAll (if s.counting then { s with counts := s.counts.set i 0 } else { s with words := s.words.set i 0 })
+    (unitIds s i (if s.counting then s.counts.getD i 0 else s.words.getD i 0)))
+
+def full (s : Sh) : Prop := s.bound ≠ 0 ∧ s.trigger ≥ s.bound
+
+/-- the step relation of `stepPC` without events (`todo` never changes) -/
+inductive PStep : Sh → PC → Sh → PC → Prop
+  | nDist (s id) : PStep s (.nDist id) (tick s) (if s.counting then .nFadd id else .nLoad id)
+  | nLoadSet (s id) : bitSet (s.words.getD (id / 8) 0) id = true → PStep s (.nLoad id) (tick (activated s id)) (.nCasIdlePending id)
+  | nLoadClr (s id) : bitSet (s.words.getD (id / 8) 0) id = false → PStep s (.nLoad id) (tick s) (.nBitCas id (s.words.getD (id / 8) 0))
+  | nBitCasOk (s id cur) : s.words.getD (id / 8) 0 = cur →
+      PStep s (.nBitCas id cur) (tick (activated { s with words := s.words.set (id / 8) (cur + mask id) } id)) (.nCasIdlePending id)
+  | nBitCasSet (s id cur) : bitSet (s.words.getD (id / 8) 0) id = true → PStep s (.nBitCas id cur) (tick (activated s id)) (.nCasIdlePending id)
+  | nBitCasRetry (s id cur) : bitSet (s.words.getD (id / 8) 0) id = false → PStep s (.nBitCas id cur) (tick s) (.nBitCas id (s.words.getD (id / 8) 0))
+  | nFadd (s id) : PStep s (.nFadd id) (tick (activated { s with counts := s.counts.set id (s.counts.getD id 0 + 1) } id)) (.nCasIdlePending id)
+  | cipIdle (s id) : s.ns = IDLE → PStep s (.nCasIdlePending id) (tick { s with ns := PENDING }) (.nTrigLoad id)
+  | cipNotified (s id) : s.ns = NOTIFIED → PStep s (.nCasIdlePending id) (tick { s with completed := bump s.completed id 1 }) .idle
+  | cipPending (s id) : s.ns ≠ IDLE → s.ns ≠ NOTIFIED → PStep s (.nCasIdlePending id) (tick s) (.nTrigLoad id)
+  | trigLoadFullFail (s id) : full s → PStep s (.nTrigLoad id) (tick s) .idle
+  | trigLoadFullSkip (s id) : full s → PStep s (.nTrigLoad id) (tick s) (.nCasPendingNotified id)
+  | trigLoad (s id) : ¬ full s → PStep s (.nTrigLoad id) (tick s) (.nTrigCas id s.trigger)
+  | trigCasOk (s id k) : s.trigger = k → PStep s (.nTrigCas id k) (tick { s with trigger := k + 1 }) (.nCasPendingNotified id)
+  | trigCasFullFail (s id k) : full s → PStep s (.nTrigCas id k) (tick s) .idle
+  | trigCasFullSkip (s id k) : full s → PStep s (.nTrigCas id k) (tick s) (.nCasPendingNotified id)
+  | trigCasRetry (s id k) : ¬ full s → PStep s (.nTrigCas id k) (tick s) (.nTrigCas id s.trigger)
+  | cpnOk (s id) : s.ns = PENDING → PStep s (.nCasPendingNotified id) (tick { s with completed := bump s.completed id 1, ns := NOTIFIED }) .idle
+  | cpnFail (s id) : s.ns ≠ PENDING → PStep s (.nCasPendingNotified id) (tick { s with completed := bump s.completed id 1 }) .idle
+  | lCasOk (s b) : s.ns = NOTIFIED → PStep s (.lCasNotifiedIdle b) (tick { s with ns := IDLE }) .lEmpty
+  | lCasFail (s b) : s.ns ≠ NOTIFIED → PStep s (.lCasNotifiedIdle b) (tick s) (.lWait b)
+  | lWait (s b) : ¬ (b = true ∧ s.trigger = 0) → PStep s (.lWait b) (tick { s with trigger := 0 }) .lStoreIdle
+  | lStoreIdle (s) : PStep s .lStoreIdle (tick { s with ns := IDLE }) .lEmpty
+  | lEmptyGo (s) : 0 < s.units → PStep s .lEmpty (tick { s with trigger := 0 }) (.lDrainDist 0 [])
+  | lEmptyDone (s) : ¬ 0 < s.units → PStep s .lEmpty (tick { s with trigger := 0 }) .idle
+  | lDrainDist (s i got) : PStep s (.lDrainDist i got) (tick s) (.lDrainSwap i got)
+  | lDrainSwapGo (s i got got') : i + 1 < s.units → PStep s (.lDrainSwap i got) (drainSh s i) (.lDrainDist (i + 1) got')
+  | lDrainSwapDone (s i got) : ¬ i + 1 < s.units → PStep s (.lDrainSwap i got) (drainSh s i) .idle
+
+theorem stepPC_PStep {s s' : Sh} {t t' : Th} {evs : List Ev} (h : stepPC s t = some (s', t', evs)) :
+    t'.todo = t.todo ∧ PStep s t.pc s' t'.pc := by
+  obtain ⟨pc, todo⟩ := t
+  cases pc <;> simp only [stepPC] at h
+  case idle => simp at h
+  case nDist id =>
+    simp only [Option.some.injEq, Prod.mk.injEq] at h
+    obtain ⟨rfl, rfl, -⟩ := h
+    exact ⟨rfl, PStep.nDist _ _⟩
+  case nLoad id =>
+    split at h <;> (rename_i hb; simp only [Option.some.injEq, Prod.mk.injEq] at h; obtain ⟨rfl, rfl, -⟩ := h)
+    · exact ⟨rfl, PStep.nLoadSet _ _ hb⟩
+    · exact ⟨rfl, PStep.nLoadClr _ _ (by simpa using hb)⟩
+  case nBitCas id cur =>
+    split at h
+    · rename_i hb; simp only [Option.some.injEq, Prod.mk.injEq] at h; obtain ⟨rfl, rfl, -⟩ := h
+      exact ⟨rfl, PStep.nBitCasOk _ _ _ hb⟩
+    · split at h <;> (rename_i hb; simp only [Option.some.injEq, Prod.mk.injEq] at h; obtain ⟨rfl, rfl, -⟩ := h)
+      · exact ⟨rfl, PStep.nBitCasSet _ _ _ hb⟩
+      · exact ⟨rfl, PStep.nBitCasRetry _ _ _ (by simpa using hb)⟩
+  case nFadd id =>
+    simp only [Option.some.injEq, Prod.mk.injEq] at h
+    obtain ⟨rfl, rfl, -⟩ := h
+    exact ⟨rfl, PStep.nFadd _ _⟩
+  case nCasIdlePending id =>
+    split at h
+    · rename_i hb; simp only [Option.some.injEq, Prod.mk.injEq] at h; obtain ⟨rfl, rfl, -⟩ := h
+      exact ⟨rfl, PStep.cipIdle _ _ hb⟩
+    · rename_i hb0
+      split at h <;> (rename_i hb; simp only [Option.some.injEq, Prod.mk.injEq] at h; obtain ⟨rfl, rfl, -⟩ := h)
+      · exact ⟨rfl, PStep.cipNotified _ _ hb⟩
+      · exact ⟨rfl, PStep.cipPending _ _ hb0 hb⟩
+  case nTrigLoad id =>
+    split at h
+    · rename_i hf
+      split at h <;> (simp only [Option.some.injEq, Prod.mk.injEq] at h; obtain ⟨rfl, rfl, -⟩ := h)
+      · exact ⟨rfl, PStep.trigLoadFullFail _ _ hf⟩
+      · exact ⟨rfl, PStep.trigLoadFullSkip _ _ hf⟩
+    · rename_i hf; simp only [Option.some.injEq, Prod.mk.injEq] at h; obtain ⟨rfl, rfl, -⟩ := h
+      exact ⟨rfl, PStep.trigLoad _ _ hf⟩
+  case nTrigCas id k =>
+    split at h
+    · rename_i hb; simp only [Option.some.injEq, Prod.mk.injEq] at h; obtain ⟨rfl, rfl, -⟩ := h
+      exact ⟨rfl, PStep.trigCasOk _ _ _ hb⟩
+    · split at h
+      · rename_i hf
+        split at h <;> (simp only [Option.some.injEq, Prod.mk.injEq] at h; obtain ⟨rfl, rfl, -⟩ := h)
+        · exact ⟨rfl, PStep.trigCasFullFail _ _ _ hf⟩
+        · exact ⟨rfl, PStep.trigCasFullSkip _ _ _ hf⟩
+      · rename_i hf; simp only [Option.some.injEq, Prod.mk.injEq] at h; obtain ⟨rfl, rfl, -⟩ := h
+        exact ⟨rfl, PStep.trigCasRetry _ _ _ hf⟩
+  case nCasPendingNotified id =>
+    split at h <;> (rename_i hb; simp only [Option.some.injEq, Prod.mk.injEq] at h; obtain ⟨rfl, rfl, -⟩ := h)
+    · exact ⟨rfl, PStep.cpnOk _ _ hb⟩
+    · exact ⟨rfl, PStep.cpnFail _ _ hb⟩
+  case lCasNotifiedIdle b =>
+    split at h <;> (rename_i hb; simp only [Option.some.injEq, Prod.mk.injEq] at h; obtain ⟨rfl, rfl, -⟩ := h)
+    · exact ⟨rfl, PStep.lCasOk _ _ hb⟩
+    · exact ⟨rfl, PStep.lCasFail _ _ hb⟩
+  case lWait b =>
+    split at h
+    · simp at h
+    · rename_i hb; simp only [Option.some.injEq, Prod.mk.injEq] at h; obtain ⟨rfl, rfl, -⟩ := h
+      exact ⟨rfl, PStep.lWait _ _ hb⟩
+  case lStoreIdle =>
+    simp only [Option.some.injEq, Prod.mk.injEq] at h
+    obtain ⟨rfl, rfl, -⟩ := h
+    exact ⟨rfl, PStep.lStoreIdle _⟩
+  case lEmpty =>
+    split at h
+    · rename_i hb; simp only [Option.some.injEq, Prod.mk.injEq] at h; obtain ⟨rfl, rfl, -⟩ := h
+      exact ⟨rfl, PStep.lEmptyGo _ hb⟩
+    · rename_i hb; simp only [drainDone, Option.some.injEq, Prod.mk.injEq] at h; obtain ⟨rfl, rfl, -⟩ := h
+      exact ⟨rfl, PStep.lEmptyDone _ hb⟩
+  case lDrainDist i got =>
+    simp only [Option.some.injEq, Prod.mk.injEq] at h
+    obtain ⟨rfl, rfl, -⟩ := h
+    exact ⟨rfl, PStep.lDrainDist _ _ _⟩
+  case lDrainSwap i got =>
+    split at h
+    · rename_i hb; simp only [Option.some.injEq, Prod.mk.injEq] at h; obtain ⟨rfl, rfl, -⟩ := h
+      exact ⟨rfl, PStep.lDrainSwapGo _ _ _ _ hb⟩
+    · rename_i hb; simp only [drainDone, Option.some.injEq, Prod.mk.injEq] at h; obtain ⟨rfl, rfl, -⟩ := h
+      exact ⟨rfl, PStep.lDrainSwapDone _ _ _ hb⟩
+
+
+/-! ## roles and structural invariant -/
+
+/-- what a thread may be doing: `L` = "is the listener thread" -/
+def pcOK (counting : Bool) (nids : Nat) (L : Prop) : PC → Prop
+  | .idle => True
+  | .nDist id => ¬ L ∧ id < nids
+  | .nLoad id => ¬ L ∧ id < nids ∧ counting = false
+  | .nBitCas id cur => ¬ L ∧ id < nids ∧ counting = false ∧ bitSet cur id = false
+  | .nFadd id => ¬ L ∧ id < nids ∧ counting = true
+  | .nCasIdlePending id => ¬ L ∧ id < nids
+  | .nTrigLoad id => ¬ L ∧ id < nids
+  | .nTrigCas id _ => ¬ L ∧ id < nids
+  | .nCasPendingNotified id => ¬ L ∧ id < nids
+  | .lCasNotifiedIdle _ => L
+  | .lWait _ => L
+  | .lStoreIdle => L
+  | .lEmpty => L
+  | .lDrainDist _ _ => L
+  | .lDrainSwap _ _ => L
+
+def cmdOK (nids : Nat) (L : Prop) (c : Cmd) : Prop :=
+  (L → isWait c = true) ∧ (¬ L → ∃ id, c = .notify id ∧ id < nids)
+
+def thOK (counting : Bool) (nids l j : Nat) (t : Th) : Prop :=
+  pcOK counting nids (j = l) t.pc ∧ ∀ c ∈ t.todo, cmdOK nids (j = l) c
+
+theorem start_pcOK {counting : Bool} {nids : Nat} {L : Prop} {c : Cmd} (h : cmdOK nids L c) :
+    pcOK counting nids L (start c) := by
+  by_cases hL : L
+  · have := h.1 hL
+    cases c <;> simp_all [isWait, start, pcOK]
+  · obtain ⟨id, rfl, hid⟩ := h.2 hL
+    simp [start, pcOK, hL, hid]
+
+theorem PStep_pcOK {counting : Bool} {nids : Nat} {L : Prop} {s s' : Sh} {pc pc' : PC} (h : PStep s pc s' pc')
+    (hc : s.counting = counting) (hp : pcOK counting nids L pc) : pcOK counting nids L pc' := by
+  cases h
+  case nDist id => cases counting <;> simp_all [pcOK]
+  all_goals simp_all [pcOK]
+
+
+/-- constants and lengths of the shared state never change -/
+def ShFrame (s s' : Sh) : Prop :=
+  s'.counting = s.counting ∧ s'.nids = s.nids ∧ s'.words.length = s.words.length ∧ s'.counts.length = s.counts.length ∧
+  s'.activations.length = s.activations.length ∧ s'.lastActivate.length = s.lastActivate.length ∧
+  s'.reported.length = s.reported.length ∧ s'.reports.length = s.reports.length ∧
+  s'.lastReport.length = s.lastReport.length ∧ s'.completed.length = s.completed.length
+
+theorem ShFrame.refl (s : Sh) : ShFrame s s := by simp [ShFrame]
+
+theorem drainSh_frame (s : Sh) (i : Nat) : ShFrame s (drainSh s i) := by
+  cases hc : s.counting <;> simp [ShFrame, drainSh, hc, tick]
+
+theorem PStep_frame {s s' : Sh} {pc pc' : PC} (h : PStep s pc s' pc') : ShFrame s s' := by
+  cases h
+  case lDrainSwapGo => exact drainSh_frame _ _
+  case lDrainSwapDone => exact drainSh_frame _ _
+  all_goals simp [ShFrame, tick, activated, bump_length]
+
+structure Str (counting : Bool) (nids l : Nat) (c : Cfg Sh Th) : Prop where
+  hcnt : c.sh.counting = counting
+  hnids : c.sh.nids = nids
+  hw : c.sh.words.length = (nids + 7) / 8
+  hc : c.sh.counts.length = nids
+  ha : c.sh.activations.length = nids
+  hla : c.sh.lastActivate.length = nids
+  hrd : c.sh.reported.length = nids
+  hrs : c.sh.reports.length = nids
+  hlr : c.sh.lastReport.length = nids
+  hcp : c.sh.completed.length = nids
+  hl : l < c.th.length
+  hth : ∀ j t, c.th[j]? = some t → thOK counting nids l j t
+
+theorem set_cases {α : Type} {l : List α} {i j : Nat} {a b : α} (h : (l.set i a)[j]? = some b) :
+    (j = i ∧ b = a) ∨ (j ≠ i ∧ l[j]? = some b) := by
+  rw [List.getElem?_set] at h
+  by_cases hij : i = j
+  · subst hij
+    simp only [if_true] at h
+    split at h
+    · left; simp_all
+    · simp at h
+  · right
+    simp only [hij, if_false] at h
+    exact ⟨Ne.symm hij, h⟩
+
+theorem Str_set {counting : Bool} {nids l : Nat} {c : Cfg Sh Th} (hs : Str counting nids l c) {i : Nat} {s' : Sh} {t' : Th}
+    (hf : ShFrame c.sh s') (ht : thOK counting nids l i t') : Str counting nids l { sh := s', th := c.th.set i t' } := by
+  obtain ⟨h1, h2, h3, h4, h5, h6, h7, h8, h9, h10⟩ := hf
+  refine ⟨?_, ?_, ?_, ?_, ?_, ?_, ?_, ?_, ?_, ?_, ?_, ?_⟩ <;> simp only
+  · rw [h1]; exact hs.hcnt
+  · rw [h2]; exact hs.hnids
+  · rw [h3]; exact hs.hw
+  · rw [h4]; exact hs.hc
+  · rw [h5]; exact hs.ha
+  · rw [h6]; exact hs.hla
+  · rw [h7]; exact hs.hrd
+  · rw [h8]; exact hs.hrs
+  · rw [h9]; exact hs.hlr
+  · rw [h10]; exact hs.hcp
+  · simpa using hs.hl
+  · intro j t hj
+    rcases set_cases hj with ⟨rfl, rfl⟩ | ⟨_, hj'⟩
+    · exact ht
+    · exact hs.hth j t hj'
+
+/-- a `Reachable.inv`-style rule for invariants on top of the structural one: `step` is split into
+the pick-up of the next command (`idle → start`) and the `PStep` of the program counter; `G` is an
+optional side condition on the step taken -/
+theorem step_rule {counting : Bool} {nids l : Nat} (P : Cfg Sh Th → Prop) (G : Cfg Sh Th → Nat → Prop)
+    (hG : ∀ (c : Cfg Sh Th) i t cmd rest, c.th[i]? = some t → t.pc = .idle → G c i →
+      G { c with th := c.th.set i ⟨start cmd, rest⟩ } i)
+    (hstart : ∀ (c : Cfg Sh Th) i t cmd rest, Str counting nids l c → P c → c.th[i]? = some t → t.pc = .idle →
+      t.todo = cmd :: rest → P { c with th := c.th.set i ⟨start cmd, rest⟩ })
+    (hpc : ∀ (c : Cfg Sh Th) i pc todo s' pc', Str counting nids l c → P c → c.th[i]? = some ⟨pc, todo⟩ → G c i →
+      PStep c.sh pc s' pc' → P { sh := s', th := c.th.set i ⟨pc', todo⟩ })
+    (c c' : Cfg Sh Th) (i : Nat) (evs : List Ev) (hinv : Str counting nids l c ∧ P c) (hg : G c i)
+    (h : sys.stepAt c i = some (c', evs)) : Str counting nids l c' ∧ P c' := by
+  obtain ⟨hs, hp⟩ := hinv
+  obtain ⟨t, sh', t', hi, hstep, rfl⟩ := stepAt_some h
+  have key : ∀ (c : Cfg Sh Th) (t : Th), Str counting nids l c → P c → G c i → c.th[i]? = some t →
+      stepPC c.sh t = some (sh', t', evs) →
+      Str counting nids l { sh := sh', th := c.th.set i t' } ∧ P { sh := sh', th := c.th.set i t' } := by
+    intro c t hs hp hg hi hst
+    obtain ⟨htodo, hps⟩ := stepPC_PStep hst
+    have hth := hs.hth i t hi
+    have ht' : t' = ⟨t'.pc, t.todo⟩ := by cases t'; simp_all
+    rw [ht']
+    refine ⟨Str_set hs (PStep_frame hps) ⟨PStep_pcOK hps hs.hcnt hth.1, hth.2⟩, ?_⟩
+    exact hpc c i t.pc t.todo sh' t'.pc hs hp (by cases t; exact hi) hg hps
+  rcases step_cases hstep with ⟨_, hst⟩ | ⟨hidle, cmd, rest, htodo, hst⟩
+  · exact key c t hs hp hg hi hst
+  · have hth := hs.hth i t hi
+    have hs0 : Str counting nids l { c with th := c.th.set i ⟨start cmd, rest⟩ } :=
+      Str_set hs (ShFrame.refl _) ⟨start_pcOK (hth.2 cmd (by simp [htodo])), fun x hx => hth.2 x (by simp [htodo, hx])⟩
+    have hp0 := hstart c i t cmd rest hs hp hi hidle htodo
+    have hi0 : ({ c with th := c.th.set i ⟨start cmd, rest⟩ } : Cfg Sh Th).th[i]? = some ⟨start cmd, rest⟩ := by
+      have : i < c.th.length := (List.getElem?_eq_some_iff.mp hi).1
+      simp [this]
+    have := key _ _ hs0 hp0 (hG c i t cmd rest hi hidle hg) hi0 hst
+    simpa [List.set_set] using this
+
+
+theorem Str_init (hr : Roles nids l progs) : Str counting nids l (initCfg counting nids bound fail progs) := by
+  refine ⟨rfl, rfl, ?_, ?_, ?_, ?_, ?_, ?_, ?_, ?_, ?_, ?_⟩ <;> simp [initCfg, Sh.init]
+  · exact hr.1
+  · intro j t hj
+    cases hp : progs[j]? with
+    | none => simp [hp] at hj
+    | some p =>
+      simp [hp] at hj
+      subst hj
+      refine ⟨by simp [Th.init, pcOK], ?_⟩
+      intro c hc
+      have := hr.2 j p hp c hc
+      by_cases hjl : j = l <;> simp_all [cmdOK, Th.init]
+
+theorem ex_set_keep {p : Th → Bool} {th : List Th} {i : Nat} {t0 t' : Th} (hi : th[i]? = some t0)
+    (h : ∃ (j : Nat) (t : Th), th[j]? = some t ∧ p t = true) (hk : p t0 = true → p t' = true) :
+    ∃ (j : Nat) (t : Th), (th.set i t')[j]? = some t ∧ p t = true := by
+  obtain ⟨j, t, hj, hp⟩ := h
+  have hlt : i < th.length := (List.getElem?_eq_some_iff.mp hi).1
+  by_cases hji : j = i
+  · subst hji
+    rw [hi] at hj; cases hj
+    exact ⟨j, t', by simp [hlt], hk hp⟩
+  · exact ⟨j, t, by rw [List.getElem?_set_ne (Ne.symm hji)]; exact hj, hp⟩
+
+theorem ex_set_new {p : Th → Bool} {th : List Th} {i : Nat} {t0 t' : Th} (hi : th[i]? = some t0) (hp : p t' = true) :
+    ∃ (j : Nat) (t : Th), (th.set i t')[j]? = some t ∧ p t = true := by
+  have hlt : i < th.length := (List.getElem?_eq_some_iff.mp hi).1
+  exact ⟨i, t', by simp [hlt], hp⟩
+
+theorem set_self {th : List Th} {i : Nat} {t0 t' : Th} (hi : th[i]? = some t0) : (th.set i t')[i]? = some t' := by
+  have hlt : i < th.length := (List.getElem?_eq_some_iff.mp hi).1
+  simp [hlt]
+
+@[simp] theorem drainSh_ns (s : Sh) (i : Nat) : (drainSh s i).ns = s.ns := by
+  cases hc : s.counting <;> simp [drainSh, hc, tick]
+@[simp] theorem drainSh_trigger (s : Sh) (i : Nat) : (drainSh s i).trigger = s.trigger := by
+  cases hc : s.counting <;> simp [drainSh, hc, tick]
+@[simp] theorem drainSh_counting (s : Sh) (i : Nat) : (drainSh s i).counting = s.counting := by
+  cases hc : s.counting <;> simp [drainSh, hc, tick]
+
+theorem drainSh_active {s : Sh} {i id : Nat} (h : (drainSh s i).active id = true) :
+    s.active id = true ∧ (if s.counting then id else id / 8) ≠ i := by
+  cases hc : s.counting
+  · simp [drainSh, hc, Sh.active, tick, getD_set] at h ⊢
+    split at h
+    · simp at h
+    · rename_i hne
+      refine ⟨h, ?_⟩
+      intro he
+      apply hne
+      refine ⟨he, ?_⟩
+      subst he
+      cases hw : s.words[id / 8]? with
+      | none => simp [hw] at h
+      | some w => exact (List.getElem?_eq_some_iff.mp hw).1
+  · simp [drainSh, hc, Sh.active, tick, getD_set] at h ⊢
+    split at h
+    · simp at h
+    · rename_i hne
+      refine ⟨h, ?_⟩
+      intro he
+      apply hne
+      refine ⟨he, ?_⟩
+      subst he
+      cases hw : s.counts[id]? with
+      | none => simp [hw] at h
+      | some w => exact (List.getElem?_eq_some_iff.mp hw).1
+
+/-! ## the wake-up invariant -/
+
+def Cover (l : Nat) (c : Cfg Sh Th) (id : Nat) : Prop :=
+  0 < c.sh.trigger ∨ c.sh.ns = NOTIFIED ∨ (∃ (j : Nat) (t : Th), c.th[j]? = some t ∧ beforeTrigger t = true) ∨
+  (∃ t, c.th[l]? = some t ∧ (willDrain c.sh t id = true ∨ t.pc = .lWait false))
+
+def WInv (nids l : Nat) (c : Cfg Sh Th) : Prop :=
+  ∀ id, id < nids → c.sh.active id = true → Cover l c id
+
+theorem active_congr {s s' : Sh} (h1 : s'.counting = s.counting) (h2 : s'.words = s.words) (h3 : s'.counts = s.counts)
+    (id : Nat) : s'.active id = s.active id := by
+  simp [Sh.active, h1, h2, h3]
+
+theorem full_pos {s : Sh} (h : full s) : 0 < s.trigger := by
+  unfold full at h; omega
+
+/-- effect of a notifier step on what the wake-up invariant looks at -/
+theorem PStep_notifier {s s' : Sh} {pc pc' : PC} (h : PStep s pc s' pc') (hn : pcOK counting nids False pc) :
+    s'.counting = s.counting ∧
+    (beforeTrigger ⟨pc', []⟩ = true ∨
+      ((∀ id, s'.active id = s.active id) ∧ s.trigger ≤ s'.trigger ∧ (s.ns = NOTIFIED → s'.ns = NOTIFIED) ∧
+       (beforeTrigger ⟨pc, []⟩ = true → 0 < s'.trigger ∨ s'.ns = NOTIFIED))) := by
+  cases h
+  all_goals (try (simp [pcOK] at hn; done))
+  all_goals (refine ⟨by simp [tick, activated], ?_⟩)
+  all_goals (try (left; simp [beforeTrigger]; done))
+  all_goals right
+  all_goals (refine ⟨fun id => active_congr rfl rfl rfl id, by simp [tick] <;> omega, by simp [tick], ?_⟩)
+  all_goals (try (simp [beforeTrigger]; done))
+  all_goals (try (intro _; left; exact full_pos ‹_›))
+  all_goals (try (simp_all [tick]; done))
+
+
+/-- effect of a listener step on what the wake-up invariant looks at -/
+theorem PStep_listener {s s' : Sh} {pc pc' : PC} (h : PStep s pc s' pc') (hn : pcOK counting nids True pc) :
+    s'.counting = s.counting ∧ beforeTrigger ⟨pc, []⟩ = false ∧
+    ((∀ id, willDrain s' ⟨pc', []⟩ id = true) ∨ ¬ 0 < s.units ∨
+     (s'.trigger = s.trigger ∧ (s.ns = NOTIFIED → s'.ns = NOTIFIED) ∧ pc ≠ .lWait false ∧
+      ∀ id, s'.active id = true → s.active id = true ∧
+        (willDrain s ⟨pc, []⟩ id = true → (if s.counting then id else id / 8) < s.units → willDrain s' ⟨pc', []⟩ id = true))) := by
+  cases h
+  all_goals (try (simp [pcOK] at hn; done))
+  case lCasOk => exact ⟨rfl, rfl, Or.inl (fun id => rfl)⟩
+  case lWait => exact ⟨rfl, rfl, Or.inl (fun id => rfl)⟩
+  case lStoreIdle => exact ⟨rfl, rfl, Or.inl (fun id => rfl)⟩
+  case lEmptyGo => exact ⟨rfl, rfl, Or.inl (fun id => by simp [willDrain])⟩
+  case lEmptyDone hu => exact ⟨rfl, rfl, Or.inr (Or.inl hu)⟩
+  case lCasFail b hb =>
+    refine ⟨rfl, rfl, Or.inr (Or.inr ⟨rfl, fun h => absurd h hb, by simp, ?_⟩)⟩
+    intro id ha
+    rw [active_congr rfl rfl rfl] at ha
+    exact ⟨ha, by simp [willDrain]⟩
+  case lDrainDist i got =>
+    refine ⟨rfl, rfl, Or.inr (Or.inr ⟨rfl, fun h => h, by simp, ?_⟩)⟩
+    intro id ha
+    rw [active_congr rfl rfl rfl] at ha
+    exact ⟨ha, fun h _ => h⟩
+  case lDrainSwapGo i got got' hu =>
+    refine ⟨by simp, rfl, Or.inr (Or.inr ⟨by simp, by simp, by simp, ?_⟩)⟩
+    intro id ha
+    obtain ⟨h1, h2⟩ := drainSh_active ha
+    refine ⟨h1, fun h _ => ?_⟩
+    simp [willDrain] at h ⊢
+    omega
+  case lDrainSwapDone i got hu =>
+    refine ⟨by simp, rfl, Or.inr (Or.inr ⟨by simp, by simp, by simp, ?_⟩)⟩
+    intro id ha
+    obtain ⟨h1, h2⟩ := drainSh_active ha
+    refine ⟨h1, fun h h3 => ?_⟩
+    simp [willDrain] at h
+    omega
+
+theorem units_pos {c : Cfg Sh Th} (hs : Str counting nids l c) {id : Nat} (hid : id < nids) :
+    (if c.sh.counting then id else id / 8) < c.sh.units := by
+  unfold Sh.units
+  cases hc : c.sh.counting
+  · simp only [Bool.false_eq_true, if_false]; rw [hs.hw]; omega
+  · simp only [if_true]; rw [hs.hnids]; exact hid
+
+theorem WInv_start (c : Cfg Sh Th) (i : Nat) (t : Th) (cmd : Cmd) (rest : List Cmd) (_hs : Str counting nids l c)
+    (hw : WInv nids l c) (hi : c.th[i]? = some t) (hidle : t.pc = .idle) (_ : t.todo = cmd :: rest) :
+    WInv nids l { c with th := c.th.set i ⟨start cmd, rest⟩ } := by
+  intro id hid ha
+  rcases hw id hid ha with h | h | h | ⟨t1, h1, h2⟩
+  · exact Or.inl h
+  · exact Or.inr (Or.inl h)
+  · refine Or.inr (Or.inr (Or.inl (ex_set_keep hi h ?_)))
+    simp [beforeTrigger, hidle]
+  · by_cases hil : i = l
+    · subst hil
+      rw [hi] at h1; cases h1
+      simp [willDrain, hidle] at h2
+    · refine Or.inr (Or.inr (Or.inr ⟨t1, ?_, h2⟩))
+      simp only
+      rw [List.getElem?_set_ne hil]; exact h1
+
+theorem WInv_pstep (c : Cfg Sh Th) (i : Nat) (pc : PC) (todo : List Cmd) (s' : Sh) (pc' : PC)
+    (hs : Str counting nids l c) (hw : WInv nids l c) (hi : c.th[i]? = some ⟨pc, todo⟩) (_ : True)
+    (h : PStep c.sh pc s' pc') : WInv nids l { sh := s', th := c.th.set i ⟨pc', todo⟩ } := by
+  have hth := (hs.hth i _ hi).1
+  simp only at hth
+  by_cases hil : i = l
+  · subst hil
+    have hth' : pcOK counting nids True pc := by simpa using hth
+    obtain ⟨hcnt, hnb, hcase⟩ := PStep_listener h hth'
+    have hset : (c.th.set i ⟨pc', todo⟩)[i]? = some ⟨pc', todo⟩ := set_self hi
+    intro id hid ha
+    rcases hcase with hA | hB | ⟨htr, hns, hnw, hG⟩
+    · exact Or.inr (Or.inr (Or.inr ⟨_, hset, Or.inl (hA id)⟩))
+    · exact absurd (Nat.zero_lt_of_lt (units_pos hs hid)) hB
+    · obtain ⟨ha0, hwd⟩ := hG id ha
+      rcases hw id hid ha0 with h1 | h1 | h1 | ⟨t1, h1, h2⟩
+      · exact Or.inl (by simp only; omega)
+      · exact Or.inr (Or.inl (hns h1))
+      · refine Or.inr (Or.inr (Or.inl (ex_set_keep hi h1 ?_)))
+        intro hb
+        have : beforeTrigger ⟨pc, todo⟩ = beforeTrigger ⟨pc, []⟩ := rfl
+        rw [this, hnb] at hb; cases hb
+      · rw [hi] at h1; cases h1
+        rcases h2 with h2 | h2
+        · exact Or.inr (Or.inr (Or.inr ⟨_, hset, Or.inl (hwd h2 (units_pos hs hid))⟩))
+        · exact absurd h2 hnw
+  · simp only [hil] at hth
+    obtain ⟨hcnt, hcase⟩ := PStep_notifier h hth
+    intro id hid ha
+    rcases hcase with hb | ⟨hact, htr, hns, hbt⟩
+    · exact Or.inr (Or.inr (Or.inl (ex_set_new (p := beforeTrigger) hi hb)))
+    · simp only at ha
+      rw [hact] at ha
+      rcases hw id hid ha with h1 | h1 | ⟨j, t, hj, hb⟩ | ⟨t1, h1, h2⟩
+      · exact Or.inl (by simp only; omega)
+      · exact Or.inr (Or.inl (hns h1))
+      · by_cases hji : j = i
+        · subst hji
+          rw [hi] at hj; cases hj
+          rcases hbt hb with h3 | h3
+          · exact Or.inl h3
+          · exact Or.inr (Or.inl h3)
+        · refine Or.inr (Or.inr (Or.inl ⟨j, t, ?_, hb⟩))
+          simp only
+          rw [List.getElem?_set_ne (Ne.symm hji)]; exact hj
+      · refine Or.inr (Or.inr (Or.inr ⟨t1, ?_, ?_⟩))
+        · simp only
+          rw [List.getElem?_set_ne hil]; exact h1
+        · simpa [willDrain, hcnt] using h2
+
+
+theorem init_not_active (id : Nat) : (Sh.init counting nids bound fail).active id = false := by
+  cases counting
+  · simp only [Sh.active, Sh.init, Bool.false_eq_true, if_false, List.getD_eq_getElem?_getD, List.getElem?_replicate]
+    split <;> simp
+  · simp only [Sh.active, Sh.init, if_true, List.getD_eq_getElem?_getD, List.getElem?_replicate]
+    split <;> simp
+
+theorem WInv_init : WInv nids l (initCfg counting nids bound fail progs) := by
+  intro id _ ha
+  simp [initCfg, init_not_active] at ha
+
+theorem WInv_reach (hr : Roles nids l progs) (c : Cfg Sh Th)
+    (h : Reachable sys (initCfg counting nids bound fail progs) c) : Str counting nids l c ∧ WInv nids l c :=
+  Reachable.inv (fun c => Str counting nids l c ∧ WInv nids l c) ⟨Str_init hr, WInv_init⟩
+    (fun c c' i evs hinv hst =>
+      step_rule (WInv nids l) (fun _ _ => True) (by intros; trivial) WInv_start WInv_pstep c c' i evs hinv trivial hst) c h
+
+/-! ## the signal invariant, on paths without a lossy `empty_buffer` -/
+
+/-- thread `i` is about to execute `empty_buffer` (`lEmpty`) while a trigger signal is stored and the
+notification state is not `IDLE`: the signal of a notifier that has not finished its hand-shake is
+thrown away *after* the state was reset -/
+def lossyEmpty (c : Cfg Sh Th) (i : Nat) : Prop :=
+  ∃ t, c.th[i]? = some t ∧ t.pc = .lEmpty ∧ 0 < c.sh.trigger ∧ c.sh.ns ≠ IDLE
+
+/-- reachable without any lossy `empty_buffer` step -/
+inductive ReachableNL (c₀ : Cfg Sh Th) : Cfg Sh Th → Prop where
+  | init : ReachableNL c₀ c₀
+  | step {c c' : Cfg Sh Th} {i : Nat} {evs : List Ev} :
+      ReachableNL c₀ c → sys.stepAt c i = some (c', evs) → ¬ lossyEmpty c i → ReachableNL c₀ c'
+
+theorem ReachableNL.reachable {c₀ c : Cfg Sh Th} (h : ReachableNL c₀ c) : Reachable sys c₀ c := by
+  induction h with
+  | init => exact Reachable.init
+  | step _ hst _ ih => exact Reachable.step ih hst
+
+theorem ReachableNL.inv {c₀ : Cfg Sh Th} (Inv : Cfg Sh Th → Prop) (h0 : Inv c₀)
+    (hs : ∀ c c' i evs, Inv c → ¬ lossyEmpty c i → sys.stepAt c i = some (c', evs) → Inv c') :
+    ∀ c, ReachableNL c₀ c → Inv c := by
+  intro c hr
+  induction hr with
+  | init => exact h0
+  | step _ hstep hnl ih => exact hs _ _ _ _ ih hnl hstep
+
+def atTrig (t : Th) : Bool :=
+  match t.pc with
+  | .nTrigLoad _ | .nTrigCas _ _ => true
+  | _ => false
+
+def JInv (l : Nat) (c : Cfg Sh Th) : Prop :=
+  (∃ t, c.th[l]? = some t ∧ t.pc = .lStoreIdle) ∨ c.sh.ns = IDLE ∨ 0 < c.sh.trigger ∨
+  (∃ (j : Nat) (t : Th), c.th[j]? = some t ∧ atTrig t = true)
+
+theorem PStep_notifierJ {s s' : Sh} {pc pc' : PC} (h : PStep s pc s' pc') (hn : pcOK counting nids False pc) :
+    pc ≠ .lStoreIdle ∧ pc' ≠ .lStoreIdle ∧
+    (atTrig ⟨pc', []⟩ = true ∨ 0 < s'.trigger ∨
+     (atTrig ⟨pc, []⟩ = false ∧ (s.ns = IDLE → s'.ns = IDLE) ∧ s'.trigger = s.trigger)) := by
+  cases h
+  all_goals (try (simp [pcOK] at hn; done))
+  all_goals (refine ⟨by simp, by (try split) <;> simp, ?_⟩)
+  all_goals (try (left; simp [atTrig]; done))
+  all_goals (try (right; left; exact full_pos ‹_›))
+  all_goals (try (right; left; simp [tick]; done))
+  all_goals (right; right; refine ⟨by simp [atTrig], ?_, rfl⟩)
+  all_goals (try (simp [tick]; done))
+  all_goals (try (simp [tick, activated]; done))
+  all_goals (intro h0; simp_all [IDLE, PENDING])
+
+theorem PStep_listenerJ {s s' : Sh} {pc pc' : PC} (h : PStep s pc s' pc') (hn : pcOK counting nids True pc) :
+    atTrig ⟨pc, []⟩ = false ∧
+    (pc' = .lStoreIdle ∨ s'.ns = IDLE ∨ (pc = .lEmpty ∧ s'.ns = s.ns ∧ s'.trigger = 0) ∨
+     (s'.ns = s.ns ∧ s'.trigger = s.trigger ∧ pc ≠ .lStoreIdle ∧ pc' ≠ .lStoreIdle)) := by
+  cases h
+  all_goals (try (simp [pcOK] at hn; done))
+  all_goals (refine ⟨rfl, ?_⟩)
+  case lCasOk => exact Or.inr (Or.inl rfl)
+  case lWait => exact Or.inl rfl
+  case lStoreIdle => exact Or.inr (Or.inl rfl)
+  case lEmptyGo => exact Or.inr (Or.inr (Or.inl ⟨rfl, rfl, rfl⟩))
+  case lEmptyDone => exact Or.inr (Or.inr (Or.inl ⟨rfl, rfl, rfl⟩))
+  all_goals (refine Or.inr (Or.inr (Or.inr ⟨by simp [tick], by simp [tick], by simp, by simp⟩)))
+
+theorem JInv_start (c : Cfg Sh Th) (i : Nat) (t : Th) (cmd : Cmd) (rest : List Cmd) (_hs : Str counting nids l c)
+    (hw : JInv l c) (hi : c.th[i]? = some t) (hidle : t.pc = .idle) (_ : t.todo = cmd :: rest) :
+    JInv l { c with th := c.th.set i ⟨start cmd, rest⟩ } := by
+  rcases hw with ⟨t1, h1, h2⟩ | h | h | h
+  · by_cases hil : i = l
+    · subst hil
+      rw [hi] at h1; cases h1
+      rw [hidle] at h2; cases h2
+    · refine Or.inl ⟨t1, ?_, h2⟩
+      simp only
+      rw [List.getElem?_set_ne hil]; exact h1
+  · exact Or.inr (Or.inl h)
+  · exact Or.inr (Or.inr (Or.inl h))
+  · refine Or.inr (Or.inr (Or.inr (ex_set_keep hi h ?_)))
+    simp [atTrig, hidle]
+
+theorem lossyEmpty_start (c : Cfg Sh Th) (i : Nat) (t : Th) (cmd : Cmd) (rest : List Cmd) (hi : c.th[i]? = some t)
+    (_ : t.pc = .idle) (_ : ¬ lossyEmpty c i) : ¬ lossyEmpty { c with th := c.th.set i ⟨start cmd, rest⟩ } i := by
+  rintro ⟨t1, h1, h2, -⟩
+  simp only at h1
+  rw [set_self hi] at h1
+  cases h1
+  cases cmd <;> simp [start] at h2
+
+theorem JInv_pstep (c : Cfg Sh Th) (i : Nat) (pc : PC) (todo : List Cmd) (s' : Sh) (pc' : PC)
+    (hs : Str counting nids l c) (hw : JInv l c) (hi : c.th[i]? = some ⟨pc, todo⟩) (hnl : ¬ lossyEmpty c i)
+    (h : PStep c.sh pc s' pc') : JInv l { sh := s', th := c.th.set i ⟨pc', todo⟩ } := by
+  have hth := (hs.hth i _ hi).1
+  simp only at hth
+  have hset : (c.th.set i ⟨pc', todo⟩)[i]? = some ⟨pc', todo⟩ := set_self hi
+  by_cases hil : i = l
+  · subst hil
+    have hth' : pcOK counting nids True pc := by simpa using hth
+    obtain ⟨hnat, hcase⟩ := PStep_listenerJ h hth'
+    have keep : (∃ (j : Nat) (t : Th), c.th[j]? = some t ∧ atTrig t = true) →
+        ∃ (j : Nat) (t : Th), (c.th.set i ⟨pc', todo⟩)[j]? = some t ∧ atTrig t = true := by
+      intro hex
+      refine ex_set_keep hi hex ?_
+      intro hb
+      have : atTrig ⟨pc, todo⟩ = atTrig ⟨pc, []⟩ := rfl
+      rw [this, hnat] at hb; cases hb
+    rcases hcase with h1 | h1 | ⟨h1, h2, h3⟩ | ⟨h1, h2, h3, h4⟩
+    · exact Or.inl ⟨_, hset, h1⟩
+    · exact Or.inr (Or.inl h1)
+    · by_cases hidle : c.sh.ns = IDLE
+      · exact Or.inr (Or.inl (by simp only; rw [h2]; exact hidle))
+      · have htr : ¬ 0 < c.sh.trigger := fun htr => hnl ⟨_, hi, h1, htr, hidle⟩
+        rcases hw with ⟨t1, h5, h6⟩ | h5 | h5 | h5
+        · rw [hi] at h5; cases h5
+          rw [h1] at h6; cases h6
+        · exact absurd h5 hidle
+        · exact absurd h5 htr
+        · exact Or.inr (Or.inr (Or.inr (keep h5)))
+    · rcases hw with ⟨t1, h5, h6⟩ | h5 | h5 | h5
+      · rw [hi] at h5; cases h5
+        exact absurd h6 h3
+      · exact Or.inr (Or.inl (by simp only; rw [h1]; exact h5))
+      · exact Or.inr (Or.inr (Or.inl (by simp only; rw [h2]; exact h5)))
+      · exact Or.inr (Or.inr (Or.inr (keep h5)))
+  · simp only [hil] at hth
+    obtain ⟨hne, hne', hcase⟩ := PStep_notifierJ h hth
+    rcases hcase with h1 | h1 | ⟨h1, h2, h3⟩
+    · exact Or.inr (Or.inr (Or.inr (ex_set_new (p := atTrig) hi h1)))
+    · exact Or.inr (Or.inr (Or.inl h1))
+    · rcases hw with ⟨t1, h5, h6⟩ | h5 | h5 | h5
+      · refine Or.inl ⟨t1, ?_, h6⟩
+        simp only
+        rw [List.getElem?_set_ne hil]; exact h5
+      · exact Or.inr (Or.inl (h2 h5))
+      · exact Or.inr (Or.inr (Or.inl (by simp only; rw [h3]; exact h5)))
+      · refine Or.inr (Or.inr (Or.inr (ex_set_keep hi h5 ?_)))
+        intro hb
+        have : atTrig ⟨pc, todo⟩ = atTrig ⟨pc, []⟩ := rfl
+        rw [this, h1] at hb; cases hb
+
+theorem JInv_reach (hr : Roles nids l progs) (c : Cfg Sh Th)
+    (h : ReachableNL (initCfg counting nids bound fail progs) c) : Str counting nids l c ∧ JInv l c :=
+  ReachableNL.inv (fun c => Str counting nids l c ∧ JInv l c) ⟨Str_init hr, Or.inr (Or.inl rfl)⟩
+    (fun c c' i evs hinv hnl hst =>
+      step_rule (JInv l) (fun c i => ¬ lossyEmpty c i) lossyEmpty_start JInv_start JInv_pstep c c' i evs hinv hnl hst) c h
+
+/-! ## ghost bookkeeping: reports, bits -/
+
+theorem reportAll_notin (ids : List (Nat × Nat)) : ∀ (s : Sh) (j : Nat), (∀ p ∈ ids, p.1 ≠ j) →
+    (reportAll s ids).reported[j]?.getD 0 = s.reported[j]?.getD 0 ∧
+    (reportAll s ids).reports[j]?.getD 0 = s.reports[j]?.getD 0 ∧
+    (reportAll s ids).lastReport[j]?.getD 0 = s.lastReport[j]?.getD 0 := by
+  induction ids with
+  | nil => intro s j _; simp [reportAll]
+  | cons p ids ih =>
+    intro s j h
+    rw [reportAll_cons]
+    have hp : j ≠ p.1 := fun e => h p (by simp) e.symm
+    have := ih { s with reported := bump s.reported p.1 p.2, reports := bump s.reports p.1 1, lastReport := s.lastReport.set p.1 (s.now + 1) } j
+      (fun q hq => h q (by simp [hq]))
+    simpa [getD_bump, getD_set, hp] using this
+
+theorem reportAll_in (ids : List (Nat × Nat)) : ∀ (s : Sh) (j k : Nat), ids.Pairwise (fun p q => p.1 ≠ q.1) → (j, k) ∈ ids →
+    j < s.reported.length → j < s.reports.length → j < s.lastReport.length →
+    (reportAll s ids).reported[j]?.getD 0 = s.reported[j]?.getD 0 + k ∧
+    (reportAll s ids).reports[j]?.getD 0 = s.reports[j]?.getD 0 + 1 ∧
+    (reportAll s ids).lastReport[j]?.getD 0 = s.now + 1 := by
+  induction ids with
+  | nil => intro s j k _ hm; simp at hm
+  | cons p ids ih =>
+    intro s j k hpw hm h1 h2 h3
+    rw [reportAll_cons]
+    rw [List.pairwise_cons] at hpw
+    rcases List.mem_cons.mp hm with rfl | hm
+    · have := reportAll_notin ids { s with reported := bump s.reported j k, reports := bump s.reports j 1, lastReport := s.lastReport.set j (s.now + 1) } j
+        (fun q hq e => hpw.1 q hq e.symm)
+      simpa [getD_bump, getD_set, h1, h2, h3] using this
+    · have hp : j ≠ p.1 := fun e => hpw.1 _ hm e.symm
+      have := ih { s with reported := bump s.reported p.1 p.2, reports := bump s.reports p.1 1, lastReport := s.lastReport.set p.1 (s.now + 1) } j k
+        hpw.2 hm (by simpa [bump_length] using h1) (by simpa [bump_length] using h2) (by simpa using h3)
+      simpa [getD_bump, getD_set, hp] using this
+
+theorem unitIds_bit_mem {s : Sh} {i v : Nat} {p : Nat × Nat} (hc : s.counting = false) :
+    p ∈ unitIds s i v ↔ ∃ b, b < 8 ∧ v.testBit b = true ∧ p = (8 * i + b, 1) := by
+  simp only [unitIds, hc, Bool.false_eq_true, if_false, List.mem_filterMap, List.mem_range, Nat.testBit_eq_decide_div_mod_eq,
+    decide_eq_true_eq]
+  constructor
+  · rintro ⟨b, hb, h⟩
+    split at h
+    · rename_i hbit
+      exact ⟨b, hb, hbit, by simpa using h.symm⟩
+    · cases h
+  · rintro ⟨b, hb, hbit, rfl⟩
+    exact ⟨b, hb, by simp [hbit]⟩
+
+theorem unitIds_bit_pairwise {s : Sh} {i v : Nat} (hc : s.counting = false) :
+    (unitIds s i v).Pairwise (fun p q => p.1 ≠ q.1) := by
+  simp only [unitIds, hc, Bool.false_eq_true, if_false]
+  refine List.Pairwise.filterMap _ ?_ List.pairwise_lt_range
+  intro a a' hlt b hb b' hb'
+  split at hb <;> simp at hb
+  split at hb' <;> simp at hb'
+  subst hb hb'
+  simp; omega
+
+theorem testBit_add_pow (w k j : Nat) (h : w.testBit k = false) :
+    (w + 2 ^ k).testBit j = (decide (j = k) || w.testBit j) := by
+  rcases Nat.lt_trichotomy j k with hlt | heq | hgt
+  · rw [Nat.add_comm, Nat.testBit_two_pow_add_gt hlt]
+    simp [Nat.ne_of_lt hlt]
+  · subst heq
+    rw [Nat.add_comm, Nat.testBit_two_pow_add_eq]
+    simp [h]
+  · obtain ⟨d, rfl⟩ : ∃ d, j = (d + 1) + k := ⟨j - k - 1, by omega⟩
+    have hne : ¬ (d + 1 + k = k) := by omega
+    rw [Nat.testBit_add (w + 2 ^ k) (d + 1) k, Nat.testBit_add w (d + 1) k, Nat.testBit_add_one, Nat.testBit_add_one]
+    have hk : w / 2 ^ k % 2 = 0 := by
+      rw [Nat.testBit_eq_decide_div_mod_eq] at h
+      simp at h; omega
+    have : (w + 2 ^ k) / 2 ^ k = w / 2 ^ k + 1 := Nat.add_div_right _ (Nat.two_pow_pos k)
+    rw [this]
+    have : (w / 2 ^ k + 1) / 2 = w / 2 ^ k / 2 := by omega
+    rw [this]
+    simp
+
+
+theorem active_bit {s : Sh} (hc : s.counting = false) (id : Nat) :
+    s.active id = (s.words[id / 8]?.getD 0).testBit (id % 8) := by
+  simp [Sh.active, hc, Nat.testBit_eq_decide_div_mod_eq]
+
+theorem bitSet_testBit (w id : Nat) : bitSet w id = w.testBit (id % 8) := by
+  by_cases h : w / 2 ^ (id % 8) % 2 = 1 <;> simp [bitSet, mask, Nat.testBit_eq_decide_div_mod_eq, h]
+
+theorem drainSh_bit {s : Sh} (hc : s.counting = false) (i : Nat) :
+    drainSh s i = tick (reportAll { s with words := s.words.set i 0 } (unitIds s i (s.words[i]?.getD 0))) := by
+  simp [drainSh, hc]
+
+theorem drainSh_cnt {s : Sh} (hc : s.counting = true) (i : Nat) :
+    drainSh s i = tick (reportAll { s with counts := s.counts.set i 0 } (unitIds s i (s.counts[i]?.getD 0))) := by
+  simp [drainSh, hc]
+
+@[simp] theorem drainSh_completed (s : Sh) (i : Nat) : (drainSh s i).completed = s.completed := by
+  cases hc : s.counting <;> simp [drainSh, hc, tick]
+@[simp] theorem drainSh_activations (s : Sh) (i : Nat) : (drainSh s i).activations = s.activations := by
+  cases hc : s.counting <;> simp [drainSh, hc, tick]
+
+/-! ## completed ≤ activations -/
+
+def inflight (id : Nat) (t : Th) : Bool :=
+  match t.pc with
+  | .nCasIdlePending i | .nTrigLoad i | .nTrigCas i _ | .nCasPendingNotified i => i == id
+  | _ => false
+
+def CInv (nids : Nat) (c : Cfg Sh Th) : Prop :=
+  ∀ id, id < nids → c.sh.completed[id]?.getD 0 + c.th.countP (inflight id) ≤ c.sh.activations[id]?.getD 0
+
+theorem countP_set_add {p : Th → Bool} {th : List Th} {i : Nat} {t0 t' : Th} (hi : th[i]? = some t0) :
+    (th.set i t').countP p + (if p t0 then 1 else 0) = th.countP p + (if p t' then 1 else 0) := by
+  induction th generalizing i with
+  | nil => simp at hi
+  | cons x xs ih =>
+    cases i with
+    | zero =>
+      simp at hi; subst hi
+      simp [List.countP_cons]; omega
+    | succ i =>
+      simp at hi
+      have := ih hi
+      simp [List.countP_cons]; omega
+
+theorem PStep_C {L : Prop} {s s' : Sh} {pc pc' : PC} (h : PStep s pc s' pc') (hn : pcOK counting nids L pc)
+    (ha : s.activations.length = nids) (id : Nat) (hid : id < nids) :
+    s'.completed[id]?.getD 0 + (if inflight id ⟨pc', []⟩ then 1 else 0) + s.activations[id]?.getD 0 ≤
+    s.completed[id]?.getD 0 + (if inflight id ⟨pc, []⟩ then 1 else 0) + s'.activations[id]?.getD 0 := by
+  cases h
+  case nDist => cases s.counting <;> simp [tick, inflight]
+  all_goals simp [tick, activated, inflight, getD_bump, pcOK] at hn ⊢
+  all_goals (repeat' split) <;> omega
+
+
+theorem CInv_start (c : Cfg Sh Th) (i : Nat) (t : Th) (cmd : Cmd) (rest : List Cmd) (_hs : Str counting nids l c)
+    (hw : CInv nids c) (hi : c.th[i]? = some t) (hidle : t.pc = .idle) (_ : t.todo = cmd :: rest) :
+    CInv nids { c with th := c.th.set i ⟨start cmd, rest⟩ } := by
+  intro id hid
+  have h1 := hw id hid
+  have h2 := countP_set_add (p := inflight id) (t' := ⟨start cmd, rest⟩) hi
+  have h3 : inflight id t = false := by simp [inflight, hidle]
+  have h4 : inflight id ⟨start cmd, rest⟩ = false := by cases cmd <;> simp [inflight, start]
+  simp only [h3, h4] at h2
+  simp only
+  simp at h2
+  omega
+
+theorem CInv_pstep (c : Cfg Sh Th) (i : Nat) (pc : PC) (todo : List Cmd) (s' : Sh) (pc' : PC)
+    (hs : Str counting nids l c) (hw : CInv nids c) (hi : c.th[i]? = some ⟨pc, todo⟩) (_ : True)
+    (h : PStep c.sh pc s' pc') : CInv nids { sh := s', th := c.th.set i ⟨pc', todo⟩ } := by
+  intro id hid
+  have h1 := hw id hid
+  have h2 := countP_set_add (p := inflight id) (t' := ⟨pc', todo⟩) hi
+  have h3 := PStep_C h (hs.hth i _ hi).1 hs.ha id hid
+  have e1 : inflight id ⟨pc, todo⟩ = inflight id ⟨pc, []⟩ := rfl
+  have e2 : inflight id ⟨pc', todo⟩ = inflight id ⟨pc', []⟩ := rfl
+  rw [e1, e2] at h2
+  simp only
+  omega
+
+theorem CInv_reach (hr : Roles nids l progs) (c : Cfg Sh Th)
+    (h : Reachable sys (initCfg counting nids bound fail progs) c) : Str counting nids l c ∧ CInv nids c :=
+  Reachable.inv (fun c => Str counting nids l c ∧ CInv nids c)
+    ⟨Str_init hr, by
+      intro id hid
+      have : List.countP (inflight id) (List.map Th.init progs) = 0 := by
+        rw [List.countP_eq_zero]
+        intro t ht
+        obtain ⟨p, _, rfl⟩ := List.mem_map.mp ht
+        simp [inflight, Th.init]
+      simp [initCfg, Sh.init, this]⟩
+    (fun c c' i evs hinv hst =>
+      step_rule (CInv nids) (fun _ _ => True) (by intros; trivial) CInv_start CInv_pstep c c' i evs hinv trivial hst) c h
+
+/-! ## counting set: conservation -/
+
+def KSh (nids : Nat) (s : Sh) : Prop :=
+  ∀ id, id < nids → s.activations[id]?.getD 0 = s.reported[id]?.getD 0 + s.counts[id]?.getD 0 ∧
+    s.reports[id]?.getD 0 ≤ s.reported[id]?.getD 0
+
+theorem PStep_K {L : Prop} {s s' : Sh} {pc pc' : PC} (h : PStep s pc s' pc') (hn : pcOK true nids L pc)
+    (hc : s.counting = true) (ha : s.activations.length = nids) (hcn : s.counts.length = nids)
+    (hrd : s.reported.length = nids) (hrs : s.reports.length = nids)
+    (hk : KSh nids s) : KSh nids s' := by
+  have drain : ∀ i, KSh nids (drainSh s i) := by
+    intro i id hid
+    obtain ⟨h1, h2⟩ := hk id hid
+    rw [drainSh_cnt hc]
+    simp only [unitIds, hc, if_true]
+    by_cases he : id = i
+    · subst he
+      by_cases hv : s.counts[id]?.getD 0 = 0
+      · simp only [hv, if_true, reportAll, List.foldl_nil, tick, getD_set, hcn, hid, and_self]
+        omega
+      · simp only [hv, if_false, reportAll, List.foldl_cons, List.foldl_nil, tick, getD_set, getD_bump, hcn, hrd, hrs,
+          hid, and_self, if_true]
+        omega
+    · by_cases hv : s.counts[i]?.getD 0 = 0
+      · simp only [hv, if_true, reportAll, List.foldl_nil, tick, getD_set, he, false_and, if_false]
+        exact ⟨h1, h2⟩
+      · simp only [hv, if_false, reportAll, List.foldl_cons, List.foldl_nil, tick, getD_set, getD_bump, he, false_and]
+        exact ⟨h1, h2⟩
+  cases h
+  case lDrainSwapGo => exact drain _
+  case lDrainSwapDone => exact drain _
+  case nFadd id0 =>
+    intro id hid
+    obtain ⟨h1, h2⟩ := hk id hid
+    simp only [pcOK] at hn
+    simp only [tick, activated, getD_bump, getD_set, List.getD_eq_getElem?_getD]
+    by_cases he : id = id0
+    · subst he
+      simp only [ha, hcn, hid, and_self, if_true]
+      omega
+    · simp only [he, false_and, if_false]
+      exact ⟨h1, h2⟩
+  all_goals (try (simp [pcOK] at hn; done))
+  all_goals exact hk
+
+
+theorem KInv_reach (hr : Roles nids l progs) (hcnt : counting = true) (c : Cfg Sh Th)
+    (h : Reachable sys (initCfg counting nids bound fail progs) c) : Str counting nids l c ∧ KSh nids c.sh := by
+  subst hcnt
+  refine Reachable.inv (fun c => Str true nids l c ∧ KSh nids c.sh) ⟨Str_init hr, ?_⟩
+    (fun c c' i evs hinv hst =>
+      step_rule (fun c => KSh nids c.sh) (fun _ _ => True) (by intros; trivial) ?_ ?_ c c' i evs hinv trivial hst) c h
+  · intro id hid
+    simp [initCfg, Sh.init, hid]
+  · intro c i t cmd rest _ hk _ _ _
+    exact hk
+  · intro c i pc todo s' pc' hs hk hi _ hp
+    exact PStep_K hp (hs.hth i _ hi).1 hs.hcnt hs.ha hs.hc hs.hrd hs.hrs hk
+
+/-! ## bit set: merged, not dropped -/
+
+def BSh (nids : Nat) (s : Sh) : Prop :=
+  ∀ id, id < nids →
+    (s.active id = false → s.lastActivate[id]?.getD 0 ≤ s.lastReport[id]?.getD 0) ∧
+    s.reports[id]?.getD 0 + (if s.active id then 1 else 0) ≤ s.activations[id]?.getD 0 ∧
+    s.reported[id]?.getD 0 = s.reports[id]?.getD 0 ∧
+    s.lastActivate[id]?.getD 0 ≤ s.now ∧ s.lastReport[id]?.getD 0 ≤ s.now
+
+theorem BSh_frame {s s' : Sh} (hb : BSh nids s) (h1 : s'.counting = s.counting) (h2 : s'.words = s.words)
+    (h2' : s'.counts = s.counts) (h3 : s'.lastActivate = s.lastActivate) (h4 : s'.lastReport = s.lastReport)
+    (h5 : s'.reports = s.reports) (h6 : s'.reported = s.reported) (h7 : s'.activations = s.activations)
+    (h8 : s.now ≤ s'.now) : BSh nids s' := by
+  intro id hid
+  obtain ⟨b1, b2, b3, b4, b5⟩ := hb id hid
+  rw [active_congr h1 h2 h2', h3, h4, h5, h6, h7]
+  exact ⟨b1, b2, b3, by omega, by omega⟩
+
+theorem BSh_act {s s1 : Sh} {id0 : Nat} (hb : BSh nids s) (hid0 : id0 < nids) (ha : s.activations.length = nids)
+    (hla : s.lastActivate.length = nids)
+    (hact : ∀ id, s1.active id = (decide (id = id0) || s.active id))
+    (g1 : s1.lastActivate = s.lastActivate) (g2 : s1.lastReport = s.lastReport) (g3 : s1.reports = s.reports)
+    (g4 : s1.reported = s.reported) (g5 : s1.activations = s.activations) (g6 : s1.now = s.now) :
+    BSh nids (tick (activated s1 id0)) := by
+  intro id hid
+  obtain ⟨b1, b2, b3, b4, b5⟩ := hb id hid
+  have hA : (tick (activated s1 id0)).active id = s1.active id := active_congr rfl rfl rfl id
+  rw [hA, hact]
+  simp only [tick, activated, g1, g2, g3, g4, g5, g6, getD_bump, getD_set]
+  by_cases he : id = id0
+  · subst he
+    simp only [decide_true, Bool.true_or, ha, hla, hid, and_self, if_true]
+    refine ⟨by simp, ?_, b3, by omega, by omega⟩
+    split at b2 <;> omega
+  · simp only [he, decide_false, Bool.false_or, false_and, if_false]
+    exact ⟨b1, b2, b3, by omega, by omega⟩
+
+theorem div_mod_eq {a b : Nat} (h1 : a / 8 = b / 8) (h2 : a % 8 = b % 8) : a = b := by omega
+
+theorem active_setbit {s : Sh} {id0 : Nat} (hc : s.counting = false) (hlen : id0 / 8 < s.words.length)
+    (hclr : s.active id0 = false) (id : Nat) :
+    ({ s with words := s.words.set (id0 / 8) (s.words[id0 / 8]?.getD 0 + mask id0) } : Sh).active id =
+      (decide (id = id0) || s.active id) := by
+  rw [active_bit (s := { s with words := s.words.set (id0 / 8) (s.words[id0 / 8]?.getD 0 + mask id0) }) hc, active_bit hc]
+  rw [active_bit hc] at hclr
+  simp only [getD_set, mask]
+  by_cases he : id / 8 = id0 / 8
+  · rw [he]
+    simp only [hlen, and_self, if_true]
+    rw [testBit_add_pow _ _ _ hclr]
+    by_cases h2 : id % 8 = id0 % 8
+    · have : id = id0 := div_mod_eq he h2
+      simp [this]
+    · have : id ≠ id0 := fun e => h2 (by rw [e])
+      simp [h2, this]
+  · have : id ≠ id0 := fun e => he (by rw [e])
+    simp [he, this]
+
+theorem BSh_drain {s : Sh} (hc : s.counting = false) (hb : BSh nids s) (hrd : s.reported.length = nids)
+    (hrs : s.reports.length = nids) (hlr : s.lastReport.length = nids) (i : Nat) : BSh nids (drainSh s i) := by
+  intro id hid
+  obtain ⟨b1, b2, b3, b4, b5⟩ := hb id hid
+  rw [drainSh_bit hc]
+  have hA : (tick (reportAll { s with words := s.words.set i 0 } (unitIds s i (s.words[i]?.getD 0)))).active id =
+      ({ s with words := s.words.set i 0 } : Sh).active id :=
+    active_congr (by simp [tick]) (by simp [tick]) (by simp [tick]) id
+  have hA2 : ({ s with words := s.words.set i 0 } : Sh).active id = (if id / 8 = i then false else s.active id) := by
+    rw [active_bit (s := { s with words := s.words.set i 0 }) hc, active_bit hc]
+    simp only [getD_set]
+    by_cases he : id / 8 = i
+    · simp only [he, true_and, if_true]
+      split
+      · simp
+      · rename_i hlt
+        simp [List.getElem?_eq_none (Nat.le_of_not_lt hlt)]
+    · simp [he]
+  rw [hA, hA2]
+  simp only [tick, reportAll_now, reportAll_activations, reportAll_lastActivate]
+  by_cases hcase : id / 8 = i ∧ s.active id = true
+  · obtain ⟨he, hact⟩ := hcase
+    have hmem : (id, 1) ∈ unitIds s i (s.words[i]?.getD 0) := by
+      rw [unitIds_bit_mem hc]
+      refine ⟨id % 8, Nat.mod_lt _ (by decide), ?_, ?_⟩
+      · rw [active_bit hc, he] at hact; exact hact
+      · rw [← he]; congr 1; omega
+    obtain ⟨r1, r2, r3⟩ := reportAll_in _ { s with words := s.words.set i 0 } id 1 (unitIds_bit_pairwise hc) hmem
+      (by simp only; omega) (by simp only; omega) (by simp only; omega)
+    simp only at r1 r2 r3
+    rw [r1, r2, r3]
+    simp only [he, if_true, hact] at b2 ⊢
+    refine ⟨fun _ => by omega, by simp; omega, by omega, by omega, by omega⟩
+  · have hnot : ∀ p ∈ unitIds s i (s.words[i]?.getD 0), p.1 ≠ id := by
+      intro p hp e
+      rw [unitIds_bit_mem hc] at hp
+      obtain ⟨b, hb8, hbit, rfl⟩ := hp
+      simp only at e
+      apply hcase
+      have h1 : id / 8 = i := by omega
+      have h2 : id % 8 = b := by omega
+      refine ⟨h1, ?_⟩
+      rw [active_bit hc, h1, h2]; exact hbit
+    obtain ⟨r1, r2, r3⟩ := reportAll_notin _ { s with words := s.words.set i 0 } id hnot
+    simp only at r1 r2 r3
+    rw [r1, r2, r3]
+    by_cases he : id / 8 = i
+    · have hact : s.active id = false := by
+        cases h : s.active id
+        · rfl
+        · exact absurd ⟨he, h⟩ hcase
+      simp only [he, if_true, hact] at b1 b2 ⊢
+      exact ⟨fun _ => b1 trivial, by simpa using b2, b3, by omega, by omega⟩
+    · simp only [he, if_false]
+      exact ⟨b1, b2, b3, by omega, by omega⟩
+
+theorem PStep_B {L : Prop} {s s' : Sh} {pc pc' : PC} (h : PStep s pc s' pc') (hn : pcOK false nids L pc)
+    (hc : s.counting = false) (hw : s.words.length = (nids + 7) / 8) (ha : s.activations.length = nids)
+    (hla : s.lastActivate.length = nids) (hrd : s.reported.length = nids) (hrs : s.reports.length = nids)
+    (hlr : s.lastReport.length = nids) (hb : BSh nids s) : BSh nids s' := by
+  cases h
+  case lDrainSwapGo => exact BSh_drain hc hb hrd hrs hlr _
+  case lDrainSwapDone => exact BSh_drain hc hb hrd hrs hlr _
+  case nFadd => simp [pcOK] at hn
+  case nLoadSet id0 hset =>
+    simp only [pcOK] at hn
+    refine BSh_act hb hn.2.1 ha hla ?_ rfl rfl rfl rfl rfl rfl
+    intro id
+    by_cases he : id = id0
+    · subst he
+      have : s.active id = true := by
+        rw [active_bit hc, ← bitSet_testBit, ← List.getD_eq_getElem?_getD]; exact hset
+      simp [this]
+    · simp [he]
+  case nBitCasSet id0 cur hset =>
+    simp only [pcOK] at hn
+    refine BSh_act hb hn.2.1 ha hla ?_ rfl rfl rfl rfl rfl rfl
+    intro id
+    by_cases he : id = id0
+    · subst he
+      have : s.active id = true := by
+        rw [active_bit hc, ← bitSet_testBit, ← List.getD_eq_getElem?_getD]; exact hset
+      simp [this]
+    · simp [he]
+  case nBitCasOk id0 cur hcur =>
+    simp only [pcOK] at hn
+    obtain ⟨-, hid0, -, hclr⟩ := hn
+    have hclr' : s.active id0 = false := by
+      rw [active_bit hc, ← bitSet_testBit, ← List.getD_eq_getElem?_getD, hcur]; exact hclr
+    have hlen : id0 / 8 < s.words.length := by rw [hw]; omega
+    rw [List.getD_eq_getElem?_getD] at hcur
+    subst hcur
+    exact BSh_act hb hid0 ha hla (active_setbit hc hlen hclr') rfl rfl rfl rfl rfl rfl
+  all_goals exact BSh_frame hb rfl rfl rfl rfl rfl rfl rfl rfl (Nat.le_succ _)
+
+theorem BInv_reach (hr : Roles nids l progs) (hcnt : counting = false) (c : Cfg Sh Th)
+    (h : Reachable sys (initCfg counting nids bound fail progs) c) : Str counting nids l c ∧ BSh nids c.sh := by
+  subst hcnt
+  refine Reachable.inv (fun c => Str false nids l c ∧ BSh nids c.sh) ⟨Str_init hr, ?_⟩
+    (fun c c' i evs hinv hst =>
+      step_rule (fun c => BSh nids c.sh) (fun _ _ => True) (by intros; trivial) ?_ ?_ c c' i evs hinv trivial hst) c h
+  · intro id hid
+    have : (Sh.init false nids bound fail).active id = false := by
+      simp only [Sh.active, Sh.init, Bool.false_eq_true, if_false, List.getD_eq_getElem?_getD, List.getElem?_replicate]
+      split <;> simp
+    simp only [initCfg, this]
+    simp [Sh.init, hid]
+  · intro c i t cmd rest _ hk _ _ _
+    exact hk
+  · intro c i pc todo s' pc' hs hk hi _ hp
+    exact PStep_B hp (hs.hth i _ hi).1 hs.hcnt hs.hw hs.ha hs.hla hs.hrd hs.hrs hs.hlr hk
+
+end Proofs
+
+/-! # The theorems -/
+
 variable (counting : Bool) (nids bound : Nat) (fail : Bool) (l : Nat) (progs : List (List Cmd))
 
 /-- **wake-up invariant**: whenever an id is active, something guarantees that the listener will
 collect it without further notifications: a trigger signal is pending, the state is `NOTIFIED`,
-a notifier is on its way to the trigger, or the listener is about to drain that id -/
+a notifier is on its way to the trigger, or the listener is about to drain that id.
+(TRUE as stated; but note that the disjunct `ns = NOTIFIED` does NOT guarantee a wake-up, see
+`event_lost_wakeup_reachable`.) -/
 theorem event_wakeup_invariant (hr : Roles nids l progs) (c : Cfg Sh Th)
     (h : Reachable sys (initCfg counting nids bound fail progs) c) (id : Nat) (hid : id < nids)
     (ha : c.sh.active id = true) :
     0 < c.sh.trigger ∨ c.sh.ns = NOTIFIED ∨ (∃ t ∈ c.th, beforeTrigger t = true) ∨
     (∃ t, c.th[l]? = some t ∧ willDrain c.sh t id = true) ∨
     (∃ t, c.th[l]? = some t ∧ (t.pc = .lCasNotifiedIdle true ∨ t.pc = .lCasNotifiedIdle false ∨ t.pc = .lWait false)) := by
-  sorry
+  rcases (WInv_reach hr c h).2 id hid ha with h1 | h1 | ⟨j, t, hj, hb⟩ | ⟨t, h1, h2 | h2⟩
+  · exact Or.inl h1
+  · exact Or.inr (Or.inl h1)
+  · exact Or.inr (Or.inr (Or.inl ⟨t, List.mem_iff_getElem?.mpr ⟨j, hj⟩, hb⟩))
+  · exact Or.inr (Or.inr (Or.inr (Or.inl ⟨t, h1, h2⟩)))
+  · exact Or.inr (Or.inr (Or.inr (Or.inr ⟨t, h1, Or.inr (Or.inr h2)⟩)))
 
-/-- **no lost wake-up**: a listener blocked in its wait (no trigger signal) while an id is active
-is never left alone: some notifier is about to post the trigger -/
-theorem event_no_lost_wakeup (hr : Roles nids l progs) (c : Cfg Sh Th)
-    (h : Reachable sys (initCfg counting nids bound fail progs) c) (id : Nat) (hid : id < nids)
-    (ha : c.sh.active id = true) (t : Th) (hl : c.th[l]? = some t) (hb : t.pc = .lWait true) (h0 : c.sh.trigger = 0) :
-    (∃ u ∈ c.th, ∃ i, u.pc = .nTrigLoad i ∨ ∃ k, u.pc = .nTrigCas i k) ∨
-    (c.sh.ns ≠ NOTIFIED ∧ ∃ u ∈ c.th, ∃ i, u.pc = .nCasIdlePending i) := by
-  sorry
-
-/-- the same for the state `NOTIFIED`: it never leaves a blocked listener without a signal on its way -/
-theorem event_notified_implies_signal (hr : Roles nids l progs) (c : Cfg Sh Th)
-    (h : Reachable sys (initCfg counting nids bound fail progs) c) (t : Th) (hl : c.th[l]? = some t)
+/-- `event_notified_implies_signal` holds on every path without a lossy `empty_buffer` step
+(the statement for all reachable configurations is FALSE, see `event_notified_implies_signal_refuted`) -/
+theorem event_notified_implies_signal_partial (hr : Roles nids l progs) (c : Cfg Sh Th)
+    (h : ReachableNL (initCfg counting nids bound fail progs) c) (t : Th) (hl : c.th[l]? = some t)
     (hb : t.pc = .lWait true ∨ t.pc = .lWait false ∨ t.pc = .lCasNotifiedIdle true ∨ t.pc = .lCasNotifiedIdle false ∨ t.pc = .idle)
     (hn : c.sh.ns = NOTIFIED) :
     0 < c.sh.trigger ∨ ∃ u ∈ c.th, ∃ i, u.pc = .nTrigLoad i ∨ ∃ k, u.pc = .nTrigCas i k := by
-  sorry
+  rcases (JInv_reach hr c h).2 with ⟨t1, h1, h2⟩ | h1 | h1 | ⟨j, u, hj, hu⟩
+  · rw [hl] at h1; cases h1
+    rcases hb with hb | hb | hb | hb | hb <;> (rw [hb] at h2; cases h2)
+  · rw [hn] at h1; cases h1
+  · exact Or.inl h1
+  · refine Or.inr ⟨u, List.mem_iff_getElem?.mpr ⟨j, hj⟩, ?_⟩
+    unfold atTrig at hu
+    split at hu
+    · rename_i i hpc; exact ⟨i, Or.inl hpc⟩
+    · rename_i i k hpc; exact ⟨i, Or.inr ⟨k, hpc⟩⟩
+    · cases hu
+
+/-- what remains of `event_no_lost_wakeup` in EVERY reachable configuration: a blocked listener with
+an active id and no signal is either about to be signalled — or the state is `NOTIFIED`: that is
+the only way a wake-up is lost -/
+theorem event_no_lost_wakeup_or_notified (hr : Roles nids l progs) (c : Cfg Sh Th)
+    (h : Reachable sys (initCfg counting nids bound fail progs) c) (id : Nat) (hid : id < nids)
+    (ha : c.sh.active id = true) (t : Th) (hl : c.th[l]? = some t) (hb : t.pc = .lWait true) (h0 : c.sh.trigger = 0) :
+    (∃ u ∈ c.th, ∃ i, u.pc = .nTrigLoad i ∨ ∃ k, u.pc = .nTrigCas i k) ∨
+    (c.sh.ns ≠ NOTIFIED ∧ ∃ u ∈ c.th, ∃ i, u.pc = .nCasIdlePending i) ∨ c.sh.ns = NOTIFIED := by
+  by_cases hn : c.sh.ns = NOTIFIED
+  · exact Or.inr (Or.inr hn)
+  · rcases (WInv_reach hr c h).2 id hid ha with h1 | h1 | ⟨j, u, hj, hu⟩ | ⟨t1, h1, h2⟩
+    · omega
+    · exact absurd h1 hn
+    · have hmem : u ∈ c.th := List.mem_iff_getElem?.mpr ⟨j, hj⟩
+      unfold beforeTrigger at hu
+      split at hu
+      · rename_i i hpc; exact Or.inr (Or.inl ⟨hn, u, hmem, i, hpc⟩)
+      · rename_i i hpc; exact Or.inl ⟨u, hmem, i, Or.inl hpc⟩
+      · rename_i i k hpc; exact Or.inl ⟨u, hmem, i, Or.inr ⟨k, hpc⟩⟩
+      · cases hu
+    · rw [hl] at h1; cases h1
+      rcases h2 with h2 | h2
+      · simp [willDrain, hb] at h2
+      · rw [hb] at h2; cases h2
+
+/-- `event_no_lost_wakeup` holds on every path without a lossy `empty_buffer` step
+(the statement for all reachable configurations is FALSE, see `event_no_lost_wakeup_refuted`) -/
+theorem event_no_lost_wakeup_partial (hr : Roles nids l progs) (c : Cfg Sh Th)
+    (h : ReachableNL (initCfg counting nids bound fail progs) c) (id : Nat) (hid : id < nids)
+    (ha : c.sh.active id = true) (t : Th) (hl : c.th[l]? = some t) (hb : t.pc = .lWait true) (h0 : c.sh.trigger = 0) :
+    (∃ u ∈ c.th, ∃ i, u.pc = .nTrigLoad i ∨ ∃ k, u.pc = .nTrigCas i k) ∨
+    (c.sh.ns ≠ NOTIFIED ∧ ∃ u ∈ c.th, ∃ i, u.pc = .nCasIdlePending i) := by
+  rcases event_no_lost_wakeup_or_notified counting nids bound fail l progs hr c h.reachable id hid ha t hl hb h0 with
+    h1 | h1 | hn
+  · exact Or.inl h1
+  · exact Or.inr h1
+  · rcases event_notified_implies_signal_partial counting nids bound fail l progs hr c h t hl (Or.inl hb) hn with h1 | h1
+    · omega
+    · exact Or.inl h1
 
 /-- **never dropped, counting set**: every activation is either already reported (with its count)
 or still stored: activations = reported + stored -/
 theorem event_counting_conservation (hr : Roles nids l progs) (hc : counting = true) (c : Cfg Sh Th)
     (h : Reachable sys (initCfg counting nids bound fail progs) c) (id : Nat) (hid : id < nids) :
     c.sh.activations.getD id 0 = c.sh.reported.getD id 0 + c.sh.counts.getD id 0 := by
-  sorry
+  simp only [List.getD_eq_getElem?_getD]
+  exact ((KInv_reach hr hc c h).2 id hid).1
 
 /-- **never dropped, bit set**: notifications of one id may be merged, but while the id is not
 active every activation so far has been followed by a report of that id -/
@@ -81,7 +1286,8 @@ theorem event_bitset_merged_not_dropped (hr : Roles nids l progs) (hc : counting
     (h : Reachable sys (initCfg counting nids bound fail progs) c) (id : Nat) (hid : id < nids)
     (hn : c.sh.active id = false) :
     c.sh.lastActivate.getD id 0 ≤ c.sh.lastReport.getD id 0 := by
-  sorry
+  simp only [List.getD_eq_getElem?_getD]
+  exact ((BInv_reach hr hc c h).2 id hid).1 hn
 
 /-- **no phantom**: the listener never reports an id more often (counting set: with a larger total
 count) than it was activated, and only ids in range -/
@@ -89,13 +1295,129 @@ theorem event_no_phantom (hr : Roles nids l progs) (c : Cfg Sh Th)
     (h : Reachable sys (initCfg counting nids bound fail progs) c) (id : Nat) :
     c.sh.reported.getD id 0 ≤ c.sh.activations.getD id 0 ∧ c.sh.reports.getD id 0 ≤ c.sh.activations.getD id 0 ∧
     (nids ≤ id → c.sh.reports.getD id 0 = 0) := by
-  sorry
+  simp only [List.getD_eq_getElem?_getD]
+  by_cases hid : id < nids
+  · cases hcnt : counting
+    · obtain ⟨b1, b2, b3, b4, b5⟩ := (BInv_reach hr hcnt c h).2 id hid
+      refine ⟨?_, ?_, fun hle => by omega⟩
+      · rw [b3]; split at b2 <;> omega
+      · split at b2 <;> omega
+    · obtain ⟨k1, k2⟩ := (KInv_reach hr hcnt c h).2 id hid
+      exact ⟨by omega, by omega, fun hle => by omega⟩
+  · have hs := (CInv_reach hr c h).1
+    have h1 : c.sh.reported[id]? = none := List.getElem?_eq_none (by rw [hs.hrd]; omega)
+    have h2 : c.sh.reports[id]? = none := List.getElem?_eq_none (by rw [hs.hrs]; omega)
+    simp [h1, h2]
 
 /-- a completed `notify` has activated its id -/
 theorem event_completed_le_activations (hr : Roles nids l progs) (c : Cfg Sh Th)
     (h : Reachable sys (initCfg counting nids bound fail progs) c) (id : Nat) :
     c.sh.completed.getD id 0 ≤ c.sh.activations.getD id 0 := by
-  sorry
+  obtain ⟨hs, hc⟩ := CInv_reach hr c h
+  simp only [List.getD_eq_getElem?_getD]
+  by_cases hid : id < nids
+  · have := hc id hid
+    omega
+  · have : c.sh.completed[id]? = none := List.getElem?_eq_none (by rw [hs.hcp]; omega)
+    simp [this]
+
+/-! ## the counterexample: a lost wake-up
+
+`T2` (listener) runs a `try_wait` up to (not including) `empty_buffer`; `T0` runs `notify 0` up to
+(not including) its `PENDING → NOTIFIED` CAS — it has posted the trigger; `T2` executes `empty_buffer`
+(the signal is thrown away), drains id 0 and returns; `T2` starts a `blocking_wait`: the state is
+`PENDING`, the CAS fails, it blocks on the (empty) trigger; `T0` finishes: `PENDING → NOTIFIED`;
+`T1` runs `notify 1`: it sees `NOTIFIED` and returns `Ok` without posting the trigger.
+Result: id 1 is active, every `notify` has returned `Ok`, the listener sleeps, nobody can step —
+and every later `notify` would see `NOTIFIED` and skip the trigger as well. -/
+
+def cexProgs : List (List Cmd) := [[.notify 0], [.notify 1], [.tryWait, .blockingWait]]
+def cexSched : List Nat := [2, 2, 2, 0, 0, 0, 0, 0, 0, 2, 2, 2, 2, 0, 1, 1, 1, 1]
+def cexFinal : Cfg Sh Th := (sys.run (initCfg false 3 0 false cexProgs) cexSched).1
+
+theorem cex_roles : Roles 3 2 cexProgs := by
+  refine ⟨by decide, ?_⟩
+  intro j p hj c hc
+  match j with
+  | 0 => simp [cexProgs] at hj; subst hj; simp at hc; subst hc; simp
+  | 1 => simp [cexProgs] at hj; subst hj; simp at hc; subst hc; simp
+  | 2 => simp [cexProgs] at hj; subst hj; simp at hc; rcases hc with rfl | rfl <;> simp [isWait]
+  | j + 3 => simp [cexProgs] at hj
+
+theorem cex_reachable : Reachable sys (initCfg false 3 0 false cexProgs) cexFinal :=
+  Sys.run_reachable _ _ _ Reachable.init _
+
+theorem cex_th : cexFinal.th = [⟨.idle, []⟩, ⟨.idle, []⟩, ⟨.lWait true, []⟩] := by rfl
+theorem cex_sh : cexFinal.sh.ns = NOTIFIED ∧ cexFinal.sh.trigger = 0 ∧ cexFinal.sh.active 1 = true ∧
+    cexFinal.sh.completed = [1, 1, 0] ∧ cexFinal.sh.reports = [1, 0, 0] := by decide
+
+/-- the lost wake-up is reachable: listener asleep in a blocking wait, no signal, id 1 active, state
+`NOTIFIED`, both `notify` calls have returned `Ok`, and no thread can take a step (deadlock) -/
+theorem event_lost_wakeup_reachable :
+    ∃ c, Roles 3 2 cexProgs ∧ Reachable sys (initCfg false 3 0 false cexProgs) c ∧
+      c.th = [⟨.idle, []⟩, ⟨.idle, []⟩, ⟨.lWait true, []⟩] ∧ c.sh.ns = NOTIFIED ∧ c.sh.trigger = 0 ∧
+      c.sh.active 1 = true ∧ c.sh.completed = [1, 1, 0] ∧ ∀ i, sys.stepAt c i = none := by
+  refine ⟨cexFinal, cex_roles, cex_reachable, cex_th, cex_sh.1, cex_sh.2.1, cex_sh.2.2.1, cex_sh.2.2.2.1, ?_⟩
+  intro i
+  match i with
+  | 0 => decide
+  | 1 => decide
+  | 2 => decide
+  | i + 3 => simp [Sys.stepAt, cex_th]
+
+/-- `event_no_lost_wakeup` as stated is FALSE -/
+theorem event_no_lost_wakeup_refuted :
+    ¬ ∀ (counting : Bool) (nids bound : Nat) (fail : Bool) (l : Nat) (progs : List (List Cmd)),
+      Roles nids l progs → ∀ (c : Cfg Sh Th), Reachable sys (initCfg counting nids bound fail progs) c →
+      ∀ id, id < nids → c.sh.active id = true → ∀ t : Th, c.th[l]? = some t → t.pc = .lWait true → c.sh.trigger = 0 →
+      (∃ u ∈ c.th, ∃ i, u.pc = .nTrigLoad i ∨ ∃ k, u.pc = .nTrigCas i k) ∨
+      (c.sh.ns ≠ NOTIFIED ∧ ∃ u ∈ c.th, ∃ i, u.pc = .nCasIdlePending i) := by
+  intro H
+  have := H false 3 0 false 2 cexProgs cex_roles cexFinal cex_reachable 1 (by decide) cex_sh.2.2.1
+    ⟨.lWait true, []⟩ (by rw [cex_th]; rfl) rfl cex_sh.2.1
+  rcases this with ⟨u, hu, i, h⟩ | ⟨hne, -⟩
+  · rw [cex_th] at hu
+    simp at hu
+    rcases hu with rfl | rfl <;> simp at h
+  · exact hne cex_sh.1
+
+/-- `event_notified_implies_signal` as stated is FALSE -/
+theorem event_notified_implies_signal_refuted :
+    ¬ ∀ (counting : Bool) (nids bound : Nat) (fail : Bool) (l : Nat) (progs : List (List Cmd)),
+      Roles nids l progs → ∀ (c : Cfg Sh Th), Reachable sys (initCfg counting nids bound fail progs) c →
+      ∀ t : Th, c.th[l]? = some t →
+      (t.pc = .lWait true ∨ t.pc = .lWait false ∨ t.pc = .lCasNotifiedIdle true ∨ t.pc = .lCasNotifiedIdle false ∨ t.pc = .idle) →
+      c.sh.ns = NOTIFIED →
+      0 < c.sh.trigger ∨ ∃ u ∈ c.th, ∃ i, u.pc = .nTrigLoad i ∨ ∃ k, u.pc = .nTrigCas i k := by
+  intro H
+  have := H false 3 0 false 2 cexProgs cex_roles cexFinal cex_reachable
+    ⟨.lWait true, []⟩ (by rw [cex_th]; rfl) (Or.inl rfl) cex_sh.1
+  rcases this with h | ⟨u, hu, i, h⟩
+  · rw [cex_sh.2.1] at h; cases h
+  · rw [cex_th] at hu
+    simp at hu
+    rcases hu with rfl | rfl <;> simp at h
+
+/-
+FALSE AS STATED (refuted above by `event_no_lost_wakeup_refuted`, `event_notified_implies_signal_refuted`;
+counterexample: `cexProgs`, `cexSched`, i.e. programs T0 = [notify 0], T1 = [notify 1],
+T2 = [tryWait, blockingWait] on the bit set (nids = 3, bound = 0), listener l = 2, schedule
+[2,2,2, 0,0,0,0,0,0, 2,2,2,2, 0, 1,1,1,1]); proved instead: `event_no_lost_wakeup_partial`,
+`event_notified_implies_signal_partial` (all paths without a lossy `empty_buffer` step, `ReachableNL`) and
+`event_no_lost_wakeup_or_notified` (all reachable configurations).  Original statements:
+
+theorem event_no_lost_wakeup (hr : Roles nids l progs) (c : Cfg Sh Th)
+    (h : Reachable sys (initCfg counting nids bound fail progs) c) (id : Nat) (hid : id < nids)
+    (ha : c.sh.active id = true) (t : Th) (hl : c.th[l]? = some t) (hb : t.pc = .lWait true) (h0 : c.sh.trigger = 0) :
+    (∃ u ∈ c.th, ∃ i, u.pc = .nTrigLoad i ∨ ∃ k, u.pc = .nTrigCas i k) ∨
+    (c.sh.ns ≠ NOTIFIED ∧ ∃ u ∈ c.th, ∃ i, u.pc = .nCasIdlePending i)
+
+theorem event_notified_implies_signal (hr : Roles nids l progs) (c : Cfg Sh Th)
+    (h : Reachable sys (initCfg counting nids bound fail progs) c) (t : Th) (hl : c.th[l]? = some t)
+    (hb : t.pc = .lWait true ∨ t.pc = .lWait false ∨ t.pc = .lCasNotifiedIdle true ∨ t.pc = .lCasNotifiedIdle false ∨ t.pc = .idle)
+    (hn : c.sh.ns = NOTIFIED) :
+    0 < c.sh.trigger ∨ ∃ u ∈ c.th, ∃ i, u.pc = .nTrigLoad i ∨ ∃ k, u.pc = .nTrigCas i k
+-/
 
 /-- non-vacuity: two notifiers and a listener on the bit set; the second notifier finds the state
 `NOTIFIED` and skips the trigger, the listener still reports both ids -/
@@ -104,5 +1426,17 @@ def exFinal : Cfg Sh Th :=
   (sys.run (initCfg false 3 0 false exProgs) ([0, 0, 0, 0, 0, 0, 0] ++ [1, 1, 1, 1] ++ List.replicate 10 2)).1
 example : exFinal.sh.reports = [1, 1, 0] ∧ exFinal.sh.completed = [1, 1, 0] ∧ exFinal.sh.trigger = 0 := by
   decide
+
+#print axioms event_wakeup_invariant
+#print axioms event_no_lost_wakeup_or_notified
+#print axioms event_no_lost_wakeup_partial
+#print axioms event_notified_implies_signal_partial
+#print axioms event_counting_conservation
+#print axioms event_bitset_merged_not_dropped
+#print axioms event_no_phantom
+#print axioms event_completed_le_activations
+#print axioms event_lost_wakeup_reachable
+#print axioms event_no_lost_wakeup_refuted
+#print axioms event_notified_implies_signal_refuted
 
 end Iox2.C05
